@@ -20,6 +20,8 @@ pub fn body_alphabet() -> Vec<(&'static str, MQ)> {
     vec![
         ("nodes_count1", q::nodes_count(1)),
         ("nodes_alias_c_values", q::nodes_aliases_values(&["c"], vec![vec![kv(K, 1_i64)]])),
+        ("values_new_alias_z", q::values(vec![al("z")], vec![vec![kv(K, 5_i64), kv(KL, 5_i64)]])),
+        ("values_new_id0", q::values(vec![id(0)], vec![vec![kv(K, 6_i64)]])),
         ("edge_1_2_values", q::edges_uniform(vec![id(1)], vec![id(2)], vec![kv(K, 1_i64)])),
         ("edge_2_2", q::edges(vec![id(2)], vec![id(2)])),
         ("values_1_k3", q::values(vec![id(1)], vec![vec![kv(K, 3_i64)]])),
@@ -44,6 +46,7 @@ pub fn failing_queries() -> Vec<(&'static str, MQ)> {
         ("values_uniform_second_id_missing", q::values_uniform(vec![id(1), id(9)], vec![kv(K, 7_i64), kv(KL, 7_i64)])),
         ("edges_second_target_missing", q::edges(vec![id(1), id(1)], vec![id(1), id(9)])),
         ("edges_each_second_target_missing", q::edges_each(vec![id(1)], vec![id(1), id(9)])),
+        ("edges_second_target_is_an_edge", q::edges(vec![id(1), id(1)], vec![id(1), id(-4)])),
         ("aliases_second_id_missing", q::aliases(&["x", "y"], vec![id(1), id(9)])),
         ("aliases_steal_then_missing", q::aliases(&["a", "y"], vec![id(2), id(9)])),
         ("nodes_aliases_second_empty", q::nodes_aliases(&["x", ""])),
@@ -110,6 +113,17 @@ pub fn run(args: &Args) -> i32 {
             }
         };
         states.insert(before.as_bytes());
+        // reference for the probe: the untouched state followed by one node insert (id-insensitive shape)
+        let probe = Step::Q(q::nodes_values(vec![vec![kv("probe", 1_i64)]]));
+        let probe_ref = catch(|| -> Result<String, String> {
+            let (mut db, _) = build(&w, variant, &scratch.path("p.agdb"), base, hist)?;
+            let _ = probe.run(db.as_mut());
+            Ok(dump(db.as_ref(), false)?.shape())
+        });
+        let probe_ref = match probe_ref {
+            Ok(Ok(x)) => x,
+            _ => String::new(),
+        };
         let mut n = 0u64;
         let mut run_case = |kind: &str, names: Vec<&'static str>, step: Step, sig_tail: String| {
             if let Some(o) = only {
@@ -127,6 +141,15 @@ pub fn run(args: &Args) -> i32 {
                 let (mut db, _) = build(&w, variant, &path, base, hist)?;
                 let res = step.run(db.as_mut());
                 let after = dump(db.as_ref(), false)?.canonical();
+                // probe: a later insert must see nothing of the failed step (e.g. stale values on a re-used id)
+                let mut after = after;
+                if res.is_err() && after == before && !probe_ref.is_empty() {
+                    let _ = probe.run(db.as_mut());
+                    let shape = dump(db.as_ref(), false)?.shape();
+                    if shape != probe_ref {
+                        after = format!("PROBE;after one further node insert the database differs from the untouched one: `{shape}` vs `{probe_ref}`");
+                    }
+                }
                 Ok((crate::c0506::res_string(&res), after, res.is_ok()))
             });
             match r {
@@ -142,7 +165,9 @@ pub fn run(args: &Args) -> i32 {
                     if res.contains(TX_ABORT) {
                         rolled_back_with_work.fetch_add(1, Ordering::Relaxed);
                     }
-                    if after != before {
+                    if after.starts_with("PROBE;") {
+                        report.violation(&format!("{kind}|{sig_tail}|later-insert-sees-effect"), &after, w.replay_json(base, hist, detail));
+                    } else if after != before {
                         report.violation(
                             &format!("{kind}|{sig_tail}|state-changed"),
                             &format!("after the failure ({res}) the database differs from before: {}", first_diff(&before, &after)),
@@ -222,6 +247,6 @@ pub fn run(args: &Args) -> i32 {
     report.set("failing_queries_per_state", json!(failing.len()));
     report.set("variants", json!(variants.iter().map(|v| v.name()).collect::<Vec<_>>()));
     report.set("exhaustive", json!(true));
-    report.set("rule", json!("from every state reached by <= state_depth steps of H from 6 base states: every transaction body of 1..3 queries over a 16-query body alphabet followed by Err from the closure, and each of 10 single queries that fail after partial work; the order-insensitive canonical dump (elements, endpoints, property sets, aliases, index contents, node count) must be unchanged"));
+    report.set("rule", json!("from every state reached by <= state_depth steps of H from 6 base states: every transaction body of 1..3 queries over a 18-query body alphabet followed by Err from the closure, and each of 11 single queries that fail after partial work; the order-insensitive canonical dump (elements, endpoints, property sets, aliases, index contents, node count) must be unchanged"));
     report.finish()
 }
